@@ -286,21 +286,29 @@ def gen_random(ctx, n, rounds=5, per_round=5):
 
 # ----------------------------------------------------------------------------- exhaustive enumeration (thorough)
 
-def alphabet_for(digest, depth_left):
+def alphabet_for(digest, family):
     """reduced op alphabet instantiated on the cookies that exist in the state"""
     m = re.search(r"ck=\[([^\]]*)\]", digest)
     cks = [x.strip() for x in m.group(1).split(",") if x.strip()] if m else []
     nc = int(re.search(r"nc=(\d+)", digest).group(1))
-    ops = ["login 0 1", "login 1 1", "approve 0", "tick", "sweep"]
-    for ck in cks:
-        ops += ["pushstart %s 1" % ck, "poll %s 1" % ck, "totp %s 0 0" % ck, "totp %s 0 1" % ck,
-                "bootstrap %s 1" % ck, "u2fbegin %s" % ck]
-        if nc:
-            ops.append("u2ffinish %s 0 u %d" % (ck, nc - 1))
+    ops = ["login 0 1", "login 1 1", "tick", "sweep"]
+    if family == "push-totp-u2f":
+        ops.append("approve 0")
+        for ck in cks:
+            ops += ["pushstart %s 1" % ck, "poll %s 1" % ck, "totp %s 0 0" % ck, "totp %s 0 1" % ck,
+                    "bootstrap %s 1" % ck, "u2fbegin %s" % ck]
+            if nc:
+                ops.append("u2ffinish %s 0 u %d" % (ck, nc - 1))
+    else:  # "hw-cli": both hardware token endpoints, both token kinds, CLI tokens
+        for ck in cks:
+            ops += ["u2fbegin %s" % ck, "wabegin %s" % ck, "showtoken %s 120" % ck, "senddoc %s 0:120" % ck]
+            if nc:
+                ops += ["u2ffinish %s 0 w %d" % (ck, nc - 1), "wafinish %s 0 w %d" % (ck, nc - 1),
+                        "wafinish %s 0 u %d" % (ck, nc - 1)]
     return ops
 
 
-def enumerate_exhaustive(ctx, depth, reset="reset 3 0 0 2 htp", cap=60000):
+def enumerate_exhaustive(ctx, depth, reset="reset 3 0 0 2 htp", family="push-totp-u2f", cap=60000):
     """breadth-first over op sequences modulo the model's canonical state; returns every (state, op) edge as
     a full sequence (one representative path per state)"""
     out0 = c.run_driver(ctx, "digest", [reset])[0]
@@ -311,7 +319,7 @@ def enumerate_exhaustive(ctx, depth, reset="reset 3 0 0 2 htp", cap=60000):
     for d in range(depth):
         cands = []
         for seq, dig in frontier:
-            for op in alphabet_for(dig, depth - d):
+            for op in alphabet_for(dig, family):
                 cands.append(seq + [op])
         if len(edges) + len(cands) > cap:
             ctx.rng.shuffle(cands)
@@ -416,10 +424,15 @@ def run(ctx):
             ops += s
             names += ["random"] * len(s)
         if not quick:
-            edges, exh_stats, exh_states = enumerate_exhaustive(ctx, 5)
-            for s in edges:
-                ops += s
-                names += ["exhaustive"] * len(s)
+            exh_stats = []
+            for depth, reset, fam in ((6, "reset 3 0 0 2 htp", "push-totp-u2f"), (6, "reset 6 0 4 2 htp", "hw-cli")):
+                edges, st, nstates = enumerate_exhaustive(ctx, depth, reset, fam, cap=80000)
+                exh_stats.append({"family": fam, "config": reset, "depth": depth, "levels": st, "states": nstates,
+                                  "edges": len(edges)})
+                exh_states += nstates
+                for s in edges:
+                    ops += s
+                    names += ["exhaustive:" + fam] * len(s)
     gen_s = time.time() - t_gen
 
     impl, log, rc = harness(ctx, ops)
@@ -517,7 +530,7 @@ def run(ctx):
         "disagreements": len(dis), "judged_violations": nviol,
         "totp_direct_probe": {"impl": got, "model": want},
         "totp_realtime_probe": wait_result,
-        "exhaustive": {"levels": exh_stats, "states": exh_states} if exh_stats else None,
+        "exhaustive": {"families": exh_stats, "states": exh_states} if exh_stats else None,
         "upgrade_sites": sites, "poll_binding": facts.get("c05_poll_binding"), "expiry_sites": facts.get("c05_expiry_sites"),
         "samples": [{"op": o, "impl": i, "model": m} for o, i, m in list(zip(ops, impl, model))[:8]],
     })
